@@ -219,6 +219,17 @@ def finish : List FieldSpec → List (String × PV) → Except VErr (List (Strin
         | some (.error e) => .error (.defaultRaised e)
         | .none => .error (.missing f.key)
 
+/-- a `default_factory` (or default) that raises for a field that is not provided: the exception
+    leaves `model_validate` at once, before the collected validation errors are reported -/
+def defaultFailure : List FieldSpec → List (String × J) → Option EvalErr
+  | [], _ => .none
+  | f :: fs, kvs =>
+    if !J.hasKey f.key kvs && !J.hasKey f.py kvs then
+      match f.default with
+      | some (.error e) => some e
+      | _ => defaultFailure fs kvs
+    else defaultFailure fs kvs
+
 mutual
   /-- pydantic validation of a JSON-like Python value against an annotation -/
   def validate (env : Env) : Ann → J → Except VErr PV
@@ -235,12 +246,15 @@ mutual
       | .fwd cls =>
         match env.class? cls with
         | some c =>
-          match validateKvs env c.fields kvs kvs with
-          | .ok vals =>
-            match finish c.fields vals with
-            | .ok fields => .ok (.model cls fields (vals.map (·.1)))
+          match defaultFailure c.fields kvs with
+          | some e => .error (.defaultRaised e)
+          | .none =>
+            match validateKvs env c.fields kvs kvs with
+            | .ok vals =>
+              match finish c.fields vals with
+              | .ok fields => .ok (.model cls fields (vals.map (·.1)))
+              | .error e => .error e
             | .error e => .error e
-          | .error e => .error e
         | .none => .error (.unknownClass cls)
       | c => validateLeaf env c (.obj kvs)
     | a, v => validateLeaf env (core a) v
